@@ -94,6 +94,8 @@ type PathState struct {
 	thread2Held []string
 	inSchedPoint bool
 	race        *raceState
+	onLock      Value
+	inHook      bool
 }
 
 func newPathState(prefix []int32) *PathState {
